@@ -272,7 +272,9 @@ def pt_post(prop):
                      detail='success/complete are decided only after every handler, including suspended ones, has finished')
             I.oblige('eventDone_at_most_once', z3.BoolVal(len(done) <= 1))
             return
-        if prop == 'C06':
+        if prop in ('C06', 'C05') and not (prop == 'C05' and exitstep):
+            # (C05: the same accounting decides that the completion of the handler's event is never lost - a count left too high means
+            # _eventDone never runs for it and <root>_complete never fires although the closure has drained)
             if exitstep:
                 return   # the manager is stopping: bookkeeping of this event is moot
             # a generator parked in a wait state is resumed by _on_done / _on_tick from what the state remembers: the event the task
@@ -309,7 +311,8 @@ def pt_post(prop):
                 I.oblige('wait.finished_task_not_scheduled', z3.BoolVal('task' not in sched))
             if steps and steps[0][2] in (2, 4) and not exitstep:
                 I.oblige('wait.event_finished_when_nothing_waits', z3.Implies(wh == 0, z3.BoolVal(len(done) == 1)))
-            return
+            if prop == 'C06':
+                return
         if prop == 'C05':
             I.oblige('handling_restored', I.fz(self, '_currently_handling') == z3.Select(ctx['pre']['_currently_handling'][0], self.t))
             I.oblige('finishes_or_keeps_waiting', z3.Or(z3.BoolVal(len(done) == 1), wh > 0, z3.BoolVal(bool(exitstep))),
